@@ -186,6 +186,10 @@ class AsyncSimpleClient:
             except asyncio.TimeoutError:  # pragma: no cover
                 raise TimeoutError()
             if not self.connected:
+                if self.input_buffer:
+                    # events that arrived before the connection ended are
+                    # returned first
+                    continue
                 raise DisconnectedError()
             try:
                 await asyncio.wait_for(self.input_event.wait(),
